@@ -2263,11 +2263,16 @@ class LazyStackedTensorDict(TensorDictBase):
                     value = value.unbind(unbind_dim)
                     for i, item in enumerate(converted_idx):
                         if isinstance(item, list):
-                            assign(item)
+                            assign(item, value[i])
                         else:
                             stack_item, idx = item
                             if idx == ():
-                                self.tensordicts[stack_item] = value[i]
+                                # write into the stacked tensordict (as the other
+                                # branches do) rather than replacing it by a view
+                                # of the value
+                                self.tensordicts[stack_item].update(
+                                    value[i], inplace=True
+                                )
                             else:
                                 self.tensordicts[stack_item][idx] = value[i]
 
